@@ -1,6 +1,7 @@
 package main
 
 import (
+	"go/constant"
 	"go/types"
 	"sort"
 	"strings"
@@ -135,7 +136,7 @@ func dependsOn(v, src ssa.Value, seen map[ssa.Value]bool) bool {
 func runC12(a *Analyzer, r *Results) {
 	pr := props("C12")
 	// ---- R1 loops: message arms
-	loops := []string{"(*leanhelix.WorkerLoop).Run", "(*leanhelix.MainLoop).run"}
+	loops := []string{"(*leanhelix.WorkerLoop).Run", idMainRun}
 	for _, id := range loops {
 		fn := a.P.Func(id)
 		// received raw messages: Select with a receive state on a chan of *ConsensusRawMessage, or a plain receive
@@ -362,20 +363,38 @@ func runC12(a *Analyzer, r *Results) {
 				}
 			}
 		}
-		ok = ok && len(outer) == 1 && outer[0] == "(*leanhelix.MainLoop).run" && deferOnly
+		ok = ok && len(outer) == 1 && outer[0] == idMainRun && deferOnly
 		r.Check("R2", props("C12", "C16"), "ViewContexts.Shutdown (irreversible) is reachable only from the main loop's deferred interrupt", "Shutdown", a.P.Pos(sd.Pos()), ok,
 			fmtf("callers of Shutdown: %v; callers of that: %v; deferred only: %v", callers, outer, deferOnly), "W")
 	}
 	// ---- R5 explicit panic inventory
 	{
-		allowed := map[string]string{
-			"services/interfaces.CreateConsensusRawMessage":                            "unreachable default of a type switch over the five message types built by the factory",
-			"services/termincommittee.panicOnLessThanMinimumCommitteeMembers":          "configuration error: committee below the hard minimum (consumer-supplied)",
-			"(*services/leanhelixterm.ConsensusMessagesFilter).HandleConsensusMessage": "unreachable default: ToConsensusMessage yields only the five types, nil is filtered before",
-			"(*leanhelix.MainLoop).run":                                                "configuration error: no election trigger",
-			"(*leanhelix.MainLoop).sendElectionMessageNonBlocking":                     "configuration error: channel capacity is a literal >= 1 (checked by C14)",
-			"(*leanhelix.MainLoop).sendUpdateMessageNonBlocking":                       "configuration error: channel capacity is a literal >= 1 (checked by C14)",
-			"(*leanhelix.MainLoop).ValidateBlockConsensus":                             "API misuse: called before Run",
+		// the inventory is keyed by what the panic says (its constant message / format), not by the function that happens
+		// to contain it: moving a configuration check into a helper does not add a panic, a new message does
+		allowed := []struct{ prefix, reason string }{
+			{"unknown message type", "unreachable default of a type switch over the five message types (nil is filtered before)"},
+			{"LH Received only %d committee members", "configuration error: committee below the hard minimum (consumer-supplied)"},
+			{"Election trigger was not configured", "configuration error: no election trigger"},
+			{"electionChannel buffer size must be at least 1", "configuration error: channel capacity is a literal >= 1 (checked by C14)"},
+			{"workerUpdateStateChannel buffer size must be at least 1", "configuration error: channel capacity is a literal >= 1 (checked by C14)"},
+			{"ValidateBlockConsensus() worker is nil", "API misuse: called before Run"},
+		}
+		panicText := func(pi *ssa.Panic) string {
+			v := pi.X
+			if mi, ok := v.(*ssa.MakeInterface); ok {
+				v = mi.X
+			}
+			if c, ok := v.(*ssa.Const); ok && c.Value != nil && c.Value.Kind() == constant.String {
+				return constant.StringVal(c.Value)
+			}
+			if call, ok := v.(*ssa.Call); ok {
+				if sc := call.Call.StaticCallee(); sc != nil && (sc.String() == "fmt.Sprintf" || sc.String() == "fmt.Errorf") && len(call.Call.Args) > 0 {
+					if c, ok := call.Call.Args[0].(*ssa.Const); ok && c.Value != nil && c.Value.Kind() == constant.String {
+						return constant.StringVal(c.Value)
+					}
+				}
+			}
+			return ""
 		}
 		n := 0
 		for _, f := range a.P.Funcs {
@@ -389,12 +408,21 @@ func runC12(a *Analyzer, r *Results) {
 							continue // synthetic (e.g. "blocking select matched no case")
 						}
 						n++
-						root := f
-						for root.Parent() != nil {
-							root = root.Parent()
+						txt := panicText(pi)
+						reason, ok := "", false
+						for _, al := range allowed {
+							if txt != "" && strings.HasPrefix(txt, al.prefix) {
+								reason, ok = al.reason, true
+							}
 						}
-						reason, ok := allowed[funcID(root)]
-						r.Check("R5", pr, "explicit panic sites in library code are exactly the inventoried ones (unreachable defaults, configuration errors)", funcID(root), a.P.InstrPos(in), ok, "new explicit panic in "+funcID(f), "W").Guards = []string{reason}
+						key := txt
+						if len(key) > 40 {
+							key = key[:40]
+						}
+						if key == "" {
+							key = funcID(f)
+						}
+						r.Check("R5", pr, "explicit panic sites in library code are exactly the inventoried ones (unreachable defaults, configuration errors), identified by their message", key, a.P.InstrPos(in), ok, "new explicit panic in "+funcID(f)+": "+txt, "W").Guards = []string{reason}
 					}
 				}
 			}
@@ -503,7 +531,7 @@ func runNilDiscipline(a *Analyzer, r *Results) {
 			}
 		}
 	}
-	for _, id := range []string{"(*leanhelix.WorkerLoop).Run", "(*leanhelix.MainLoop).run"} {
+	for _, id := range []string{"(*leanhelix.WorkerLoop).Run", idMainRun} {
 		w := a.NewWalker(on)
 		w.Run(a.P.Func(id), nil, nil)
 		for _, u := range w.Undecided {
